@@ -1270,7 +1270,7 @@ def chirp(fs, start_frequency, end_frequency, duration, level,
         sf = apply_max_correction(sf, max_correction)
 
     if audiogram_weighting is not None:
-        sf = apply_audiogram_weighting(ifreq, sf, audiogram_weighting)
+        sf = apply_weighting(ifreq, sf, audiogram_weighting)
 
     # We need to normalize the window so that it has a RMS of 1. Then, we
     # multiply by the square root of 2 since we are using the sin function
@@ -1368,7 +1368,7 @@ def bandlimited_click(fs, flb, fub, window=0.1, level=1, level_unit='rms',
         sf = np.mean(sf)
 
     if audiogram_weighting is not None:
-        sf = apply_audiogram_weighting(freq[m], sf, audiogram_weighting)
+        sf = apply_weighting(freq[m], sf, audiogram_weighting)
 
     psd[m] = sf
     waveform = _click_waveform(psd, freq, n_window)
